@@ -4,8 +4,8 @@ from props import common
 
 ID = "C13"
 LEVEL = "proof"
-SIDECARS = ["contracts.hardware", "contracts.fusion"]
-TARGETS = ["Hardware.get_components", "Fusion.__init__", "Fusion.add_einsum", "Fusion.add_component", "Fusion.get_blocks", "Fusion.get_components"]
+SIDECARS = ["contracts.hardware", "contracts.fusion", "contracts.rollup"]
+TARGETS = ["Collector.__build_time", "Hardware.get_components", "Fusion.__init__", "Fusion.add_einsum", "Fusion.add_component", "Fusion.get_blocks", "Fusion.get_components"]
 EXPLANATION = (
     "Representation invariant + per-call postcondition of the real Fusion.add_einsum, proved for every history: the "
     "new Einsum is appended to the open block or opens a new last block (all earlier blocks untouched), and it joins "
@@ -29,10 +29,113 @@ def refute(uni, ob, replay_dir):
     return common.native_refute(uni, _sidecars(), ob, replay_dir, limit=3000)
 
 
+_FUNCTIONAL = {"compute", "intersector", "sequencer"}
+
+
+def _oracle(doc, blocks):
+    """legality of the REPORTED blocks against the specification alone (YAML as loaded by ruamel, aliases resolved)"""
+    errs = []
+    einsums = [e.split("[")[0].strip() for e in doc["einsum"]["expressions"]]
+    if [e for b in blocks for e in b] != einsums:
+        errs.append("reported blocks %r are not the Einsums %r once each, in program order" % (blocks, einsums))
+    if any(len(b) == 0 for b in blocks):
+        errs.append("empty block")
+
+    def config(e):
+        return [b["config"] for b in doc["bindings"][e] if "config" in b][0]
+
+    def prefix(e):
+        loop = ((doc.get("mapping") or {}).get("loop-order") or {}).get(e)
+        if loop is None:
+            return None          # default loop order: not recomputed here
+        space = ((doc.get("mapping") or {}).get("spacetime") or {}).get(e, {}).get("space") or []
+        space = [str(x).split(".")[0] for x in space]
+        return loop[:loop.index(space[0])] if space else loop
+
+    def functional(level, acc):
+        for comp in level.get("local") or []:
+            if str(comp["class"]).lower() in _FUNCTIONAL:
+                acc.add(comp["name"])
+        for sub in level.get("subtree") or []:
+            functional(sub, acc)
+        return acc
+
+    def bound(e):
+        func = functional(doc["architecture"][config(e)][0], set())
+        return {b["component"] for b in doc["bindings"][e] if "component" in b and b.get("bindings") and b["component"] in func}
+    for blk in blocks:
+        for i, e1 in enumerate(blk):
+            for e2 in blk[i + 1:]:
+                if e1 not in doc["bindings"] or e2 not in doc["bindings"]:
+                    continue
+                if config(e1) != config(e2):
+                    errs.append("%s and %s share a block across configurations" % (e1, e2))
+                if prefix(e1) is not None and prefix(e2) is not None and prefix(e1) != prefix(e2):
+                    errs.append("%s and %s share a block with temporal prefixes %r / %r" % (e1, e2, prefix(e1), prefix(e2)))
+                if bound(e1) & bound(e2):
+                    errs.append("%s and %s share a block but both bind %s" % (e1, e2, sorted(bound(e1) & bound(e2))))
+    return errs
+
+
+def _emitted_blocks(tier):
+    """the blocks REPORTED by the emitted program (the metrics["blocks"] literal) of real compilations: the Fusion
+    histories of the sidecar generator (quick: every 9th), variants whose later Einsums re-use a component entry through
+    a YAML alias, and the repository's accelerator specifications"""
+    import ast as _ast
+    import re
+    from ruamel.yaml import YAML
+    from contracts import fusion as fz
+    specs = []
+    for n, h in enumerate(fz._histories(3)):
+        if tier != "thorough" and n % 9:
+            continue
+        specs.append(("history %s" % (h,), fz._yaml(h)))
+    # alias variants: the second (and third) Einsum re-uses the first Einsum's component entry by alias
+    base = fz._yaml([("A", "N", "0", "MKN"), ("A", "N", "0", "MKN"), ("A", "N", "1", "MKN")])
+    first = "  - component: FPMul0\n    bindings:\n    - op: mul\n"
+    if base.count(first) >= 2:
+        i = base.index(first)
+        ali = base[:i] + "  - &mul\n    component: FPMul0\n    bindings:\n    - op: mul\n" + base[i + len(first):]
+        ali = ali.replace(first, "  - *mul\n", 1)
+        specs.append(("component entry of the second Einsum is an alias of the first's", ali))
+    for name, txt in common.accelerator_specs():
+        specs.append((name, txt))
+    ev, fails, samples = 0, [], []
+    for name, y in specs:
+        try:
+            text = str(common.compile_full(y, fill_spacetime=False))
+        except Exception:      # noqa
+            try:
+                text = str(common.compile_full(y))
+            except Exception:      # noqa
+                continue
+        m = re.findall(r'^metrics\["blocks"\] = (.*)$', text, flags=re.M)
+        if len(m) != 1:
+            fails.append({"name": "bounded/reported-blocks", "detail": "%s: %d metrics[\"blocks\"] lines" % (name[:80], len(m)),
+                          "witness": {"spec": name, "yaml": y[:1500]}})
+            continue
+        ev += 1
+        blocks = _ast.literal_eval(m[0])
+        errs = _oracle(YAML(typ="safe").load(y), blocks)
+        if len(samples) < 2:
+            samples.append({"spec": name[:80], "reported_blocks": blocks})
+        if errs:
+            fails.append({"name": "bounded/reported-blocks", "detail": "%s: %s" % (name[:80], errs[0]),
+                          "witness": {"spec": name, "reported_blocks": blocks, "problems": errs[:4], "yaml": y[:1500]}})
+    return ev, fails[:6], samples
+
+
 def bounded(uni, tier, seed):
+    ev0, f0, s0 = _emitted_blocks(tier)
     if tier != "thorough":
-        return None
+        return {"evaluations": ev0, "distinct_nontrivial": ev0, "failures": f0, "samples": s0,
+                "rule": "the metrics[\"blocks\"] literal of real metrics-mode compilations (Fusion histories of <= 3 Einsums, "
+                        "every 9th; a variant whose later Einsum re-uses a component entry through a YAML alias; the "
+                        "repository's accelerator specifications) checked against the specification alone: every Einsum "
+                        "once, in program order, and pairwise same configuration / temporal prefix / disjoint functional "
+                        "components (compute, intersector, sequencer) inside a block (bounded)"}
     ev, failures, per = common.native_sweep(uni, _sidecars(), TARGETS, limit=20000)
+    ev, failures = ev + ev0, failures + f0
     return {"evaluations": ev, "distinct_nontrivial": ev, "failures": failures,
             "rule": "every history of <= 3 Einsums over 2 configs x 2 space/time splits x 4 component sets fed to the "
                     "real Fusion with real Program/Hardware objects; the sidecar contract evaluated natively "
